@@ -16,13 +16,13 @@ theorem overCap_zero (d : Nat) : Depth.overCap 0 d = false := by simp [Depth.ove
 
 /-- the solver's fold over the incoming links is the depth model's loop, as long as no callee reports an error -/
 theorem fold_eq_loop (net : Net W) (f f' : Nat) (d : Nat)
-    (ih : ∀ vis i d r, Depth.depth net 0 f vis i d = r → r.err = .ok → depthAux net f' vis i d = (r.d, r.vis))
-    (ls : List Link) (mx : Nat) (vis : List Bool) (r : Depth.DRes)
+    (ih : ∀ vis i d r, Depth.depth net 0 f vis i d = r → r.err = .ok → Solver.depthAux net f' vis i d = (r.d, r.vis))
+    (ls : List (NLink W)) (mx : Nat) (vis : List Bool) (r : Depth.DRes)
     (h : Depth.loop (fun v j => Depth.depth net 0 f v j (d + 1)) (ls.map (·.src)) mx vis = r) (hok : r.err = .ok) :
     ls.foldl (fun (acc : Nat × List Bool) l =>
         if acc.2.getD l.src false then acc
         else
-          let c := depthAux net f' acc.2 l.src (d + 1)
+          let c := Solver.depthAux net f' acc.2 l.src (d + 1)
           (if c.1 > acc.1 then c.1 else acc.1, c.2)) (mx, vis) = (r.d, r.vis) := by
   induction ls generalizing mx vis with
   | nil => simp only [List.map_nil, Depth.loop] at h; subst h; rfl
@@ -48,14 +48,14 @@ theorem fold_eq_loop (net : Net W) (f f' : Nat) (d : Nat)
         exact absurd hok he
 
 theorem depthAux_eq (net : Net W) (f : Nat) : ∀ (f' : Nat), f ≤ f' → ∀ vis i d r,
-    Depth.depth net 0 f vis i d = r → r.err = .ok → depthAux net f' vis i d = (r.d, r.vis) := by
+    Depth.depth net 0 f vis i d = r → r.err = .ok → Solver.depthAux net f' vis i d = (r.d, r.vis) := by
   induction f with
   | zero => intro f' _ vis i d r h hok; simp only [Depth.depth] at h; subst h; cases hok
   | succ f ihf =>
     intro f' hle vis i d r h hok
     obtain ⟨g, rfl⟩ : ∃ g, f' = g + 1 := ⟨f' - 1, by omega⟩
     simp only [Depth.depth, overCap_zero, Bool.false_eq_true, ↓reduceIte] at h
-    simp only [depthAux]
+    simp only [Solver.depthAux]
     cases hn : net.nodes[i]? with
     | none => simp only [hn] at h; subst h; rfl
     | some nd =>
@@ -71,7 +71,7 @@ theorem depthAux_eq (net : Net W) (f : Nat) : ∀ (f' : Nat), f ≤ f' → ∀ v
 theorem outFold_eq (net : Net W) (os : List Nat) (mx : Nat) (vis : List Bool) (r : Depth.DRes)
     (h : Depth.outLoop net 0 os mx vis = r) (hok : r.err = .ok) :
     os.foldl (fun (acc : Nat × List Bool) o =>
-        let c := depthAux net (net.nodes.length + 2) acc.2 o 0
+        let c := Solver.depthAux net (net.nodes.length + 2) acc.2 o 0
         (if c.1 > acc.1 then c.1 else acc.1, c.2)) (mx, vis) = (r.d, r.vis) := by
   induction os generalizing mx vis with
   | nil => simp only [Depth.outLoop] at h; subst h; rfl
@@ -91,9 +91,9 @@ theorem outFold_eq (net : Net W) (os : List Nat) (mx : Nat) (vis : List Bool) (r
     yields `exceeded`), the solver model's `maxDepth` returns the same depth and the same marks -/
 theorem solver_maxDepth_eq (net : Net W) (vis : List Bool) (hc : net.ctrl.length = 0)
     (hok : (Depth.maxDepthCap net 0 vis).err = .ok) :
-    maxDepth net vis = ((Depth.maxDepthCap net 0 vis).depth.toNat, (Depth.maxDepthCap net 0 vis).vis) := by
+    Solver.maxDepth net vis = ((Depth.maxDepthCap net 0 vis).depth.toNat, (Depth.maxDepthCap net 0 vis).vis) := by
   unfold Depth.maxDepthCap at hok ⊢
-  unfold maxDepth
+  unfold Solver.maxDepth
   simp only [hc, gt_iff_lt, Nat.lt_irrefl, ↓reduceIte] at hok ⊢
   by_cases hs : Depth.noHiddenShortcut net = true
   · have : (net.nodes.length == net.inputs.length + net.outputs.length) = true := hs
